@@ -388,6 +388,13 @@ func (e *Engine) assumeAllocated(st *State, v Value, t types.Type) {
 
 func (e *Engine) store(p *Path, addr Value, v Value, t types.Type, pos token.Pos) []*Path {
 	st := p.st
+	if fv, ok := v.(*FuncV); ok {
+		if _, isSig := t.Underlying().(*types.Signature); isSig {
+			if _, cell := addr.(*PtrV); !cell || addr.(*PtrV).Kind != PCell {
+				v = closureRef(fv)
+			}
+		}
+	}
 	switch a := addr.(type) {
 	case *PtrV:
 		switch a.Kind {
